@@ -12,9 +12,12 @@ git -C /repo worktree remove --force $wt 2>/dev/null
 git -C /repo worktree add --detach $wt HEAD -q
 cp /repo/thejoker/src/fast_likelihood.c /repo/thejoker/src/*.so $wt/thejoker/src/; cp /repo/thejoker/_version.py $wt/thejoker/
 res=$dst/eval.txt; : > $res
-( cd $wt && timeout 600 /venv/bin/python $OLDPWD/$dst/demo.py > /tmp/seedeval_$id.clean.log 2>&1; echo "demo_clean_rc=$?" ) >> $res
+# demos expect to live in <worktree>/SEED/ and may use the neutral pyx runtime under /tmp/seedtools (= harness/pyxtrans.py)
+mkdir -p /tmp/seedtools $wt/SEED; [ -f /tmp/seedtools/pyx_runtime.py ] || cp harness/pyxtrans.py /tmp/seedtools/pyx_runtime.py
+cp $dst/demo.py $wt/SEED/demo.py
+( cd $wt && timeout 900 /venv/bin/python SEED/demo.py > /tmp/seedeval_$id.clean.log 2>&1; echo "demo_clean_rc=$?" ) >> $res
 ( cd $wt && git apply $OLDPWD/$dst/patch.diff && echo "patch_applies=yes" || echo "patch_applies=NO" ) >> $res
-( cd $wt && timeout 600 /venv/bin/python $OLDPWD/$dst/demo.py > /tmp/seedeval_$id.patched.log 2>&1; echo "demo_patched_rc=$?" ) >> $res
+( cd $wt && timeout 900 /venv/bin/python SEED/demo.py > /tmp/seedeval_$id.patched.log 2>&1; echo "demo_patched_rc=$?" ) >> $res
 ( cd $wt && /venv/bin/python -m pytest -q -p no:cacheprovider --timeout=900 --continue-on-collection-errors 2>&1 | tail -1 | sed 's/^/tests_patched: /' ) >> $res
 for p in $props; do
   out=$(VERIF_REPO=$wt timeout 1800 ./check $p 2>&1 | grep -E "^(VIOLATION|OK|INFRA|KNOWN)" | head -3 | tr '\n' '|')
